@@ -220,14 +220,17 @@ class C04(Check):
 
 # ------------------------------------------------------------------------------ C05
 
-def script_for(word):
-    """likelihood values realising a pass/fail word (first evaluation compares with lowest())"""
+def script_for(word, first=None):
+    """likelihood values realising a pass/fail word (first evaluation compares with lowest()); `first`: the value of
+    the first evaluation when that one fails (any value but lowest() fails there)"""
     vals = []
     prev = ref.LOWEST
     alt = 0
-    for ok in word:
+    for n, ok in enumerate(word):
         if ok:
             v = prev
+        elif n == 0 and first is not None and first != ref.LOWEST:
+            v = first
         else:
             alt += 1
             v = -100.0 - alt if prev == ref.LOWEST or prev > -1000 else -50.0
@@ -267,6 +270,43 @@ class C05(Check):
             rc = random_run(rng, variants=ALL_VARIANTS, N=3, nrec=3, K=2, r=1, maxit=maxit, nconv=rng.randint(1, 6),
                             script=script_for(word), ltwt=("u", "u"))
             runs["rw%d" % k] = (rc, word)
+        # several realizations in one call: every realization follows the rule on its own evaluations, whatever the
+        # previous realization ended with - in particular when its first likelihood IS the previous one's last
+        multi = {}
+        for k in range(60 if self.tier == "quick" else 500):
+            maxit = rng.choice([1, 5, 11, 12, 21, 25, 31, 45, 61])
+            nev = (maxit + 9) // 10
+            r = rng.randint(2, 4)
+            p = rng.choice([0.4, 0.7, 0.9])
+            words, script, last = [], [], None
+            for j in range(r):
+                w = [rng.random() < p for _ in range(nev)]
+                if j > 0 or rng.random() < 0.7:
+                    w[0] = False
+                vals = script_for(w, first=last if rng.random() < 0.7 else None)
+                words.append(tuple(w))
+                script += vals
+                last = vals[-1]
+            rc = random_run(rng, variants=ALL_VARIANTS, N=3, nrec=3, K=2, r=r, maxit=maxit, nconv=rng.randint(1, 3),
+                            script=script, ltwt=("u", "u"))
+            multi["mr%d" % k] = (rc, words)
+        iom, _ = self.correspond("run", [rc.line(c) for c, (rc, w) in multi.items()], keys=["iters", "reasons", "L2s", "err"])
+        for cid, (rc, words) in multi.items():
+            o = iom.get(cid)
+            if not o or o.get("err") != ["0"]:
+                continue
+            self.monitor("scripted runs with several realizations")
+            self.nontrivial((rc.maxit, rc.nconv, tuple(words)))
+            for j, word in enumerate(words):
+                n, reason = ref.stop_rule(rc.maxit, rc.nconv, list(word))
+                got = (int(o["iters"][j]), o["reasons"][j])
+                if got != (n, reason):
+                    self.violate("stopping-rule-later-realization",
+                                 "max_it=%d n_conv=%d realization %d of %d, outcomes=%s: stopped after %d (%s), documented rule says %d (%s)"
+                                 % (rc.maxit, rc.nconv, j, len(words), "".join("P" if x else "F" for x in word), got[0], got[1], n, reason),
+                                 dict(rc.describe(), words=[list(w) for w in words], realization=j, expected=[n, reason], got=list(got),
+                                      case=rc.line("replay")))
+                    break
         io, mo = self.correspond("run", [rc.line(c) for c, (rc, w) in runs.items()], keys=["iters", "reasons", "L2s", "err"])
         for cid, (rc, word) in runs.items():
             o = io.get(cid)
